@@ -359,7 +359,8 @@ PLANS["C19"] = {
     "clauses": ["C19_Stats"],
     "quick": [
         dict(name="partial", consts=consts(files=("f", "g"), alphabet=PARTIAL, steps=5, commits=3, uid=5, lines=3),
-             invariants=[], budget=200, variants=RENDERS[:3], extra={"stats": True}),
+             invariants=[], budget=200, variants=RENDERS[:3] + [("multibyte", "unicode"), ("plain", "quoted")],
+             extra={"stats": True}),
         dict(name="rewrite", consts=consts(alphabet=REWRITE + ("amend",), steps=9, commits=7, uid=5, lines=4,
                                            sessions=("S1",)), invariants=[], budget=100, variants=RENDERS[:2],
              per_tag=1, extra={"stats": True}),
